@@ -117,7 +117,22 @@ def run(ctx):
                         idv = sc.resolve(ids["ids"])
                         o.holds(cj, a, f"row = {v} - {z}, {z} = 1 exactly when the smallest vertex id is not 0")
                     else:
-                        o.undecided(f"offset `{z}` is not {{0 by default, 1 if min(ids) != 0}}", cj, a)
+                        # any other spelling of the same value: summarise the statements that bind the offset
+                        from gcmstatic import conform as _cf
+                        zst = [s_ for s_ in cj.body if any(isinstance(x, ast.Name) and x.id == z and isinstance(x.ctx, ast.Store) for x in ast.walk(s_))]
+                        mins = [x for s_ in zst for x in ast.walk(s_) if isinstance(x, ast.Call) and txt(x.func) == "min" and len(x.args) == 1 and isinstance(x.args[0], ast.Name)]
+                        if zst and mins:
+                            idn = mins[0].args[0].id
+                            got = _cf.snippet_term(zst, z, [idn])
+                            want = _cf.term_of_src("def f(ids):\n    return 0 if min(ids) == 0 else 1\n")
+                            if got == want:
+                                o.holds(cj, a, f"row = {v} - {z}, {z} = 1 exactly when the smallest vertex id is not 0")
+                            elif not tm.has_opaque(got):
+                                o.violated(cj, zst[-1], f"the row offset `{z}` is {tm.show(got)[:120]}; vertex ids are 0-based or 1-based, so it must be 0 when min(ids) == 0 and 1 otherwise")
+                            else:
+                                o.undecided(f"offset `{z}` not understood", cj, a)
+                        else:
+                            o.undecided(f"offset `{z}` is not {{0 by default, 1 if min(ids) != 0}}", cj, a)
 
     with ctx.obligation("C08.5", "removed columns = exactly the columns with no non-zero entry over all rows") as o, \
             ctx.obligation("C08.3", "column removal keeps the right columns (descending order or rebuilt rows)") as o3:
